@@ -14,6 +14,11 @@ def stepC17 : Step
     let d := Hex.decode h
     if d.length != 32 then some ("err", "err") else
     some (Hex.encode (HashScalar.hsBytes d), Hex.encode (Spec.HashScalar.scalarOfDigest d))
+  | ["c17_trait_hs", h] =>
+    -- `Hashable::hash_to_scalar` (provided method) on a PublicKey: hash = Keccak(key bytes); scalar = LE(hash) mod l
+    let k := Hex.decode h
+    let d := Keccak.keccak256 k
+    some (s!"{Hex.encode d} {Hex.encode (HashScalar.hsBytes d)}", s!"{Hex.encode d} {Hex.encode (Spec.HashScalar.scalarOfDigest d)}")
   | ["c17_hash_to_scalar", h] =>
     let m := Hex.decode h
     some (Hex.encode (HashScalar.hashToScalarBytes HashScalar.hashNew m),
